@@ -15,6 +15,7 @@ import (
 	"os"
 	"runtime/debug"
 	"sort"
+	"sync"
 	"strconv"
 	"strings"
 
@@ -521,24 +522,49 @@ type lockCall struct {
 	keys  []int
 	ids   []int // writetx / snapshot transaction ids
 	node  int
+	line  string
+}
+
+// runLockCall runs a prepared call; Badger's optimistic conflicts (WriteTransaction and
+// WriteSnapshot commit without / across the store mutex) are retried like the kernel does.
+func runLockCall(fn func() error) string {
+	out, _, _ := Catch(func() string {
+		for i := 0; ; i++ {
+			err := fn()
+			if err != nil && i < 200 && strings.Contains(err.Error(), "Transaction Conflict") {
+				continue
+			}
+			return errClass(err)
+		}
+	})
+	return out
 }
 
 // execLockCall performs the real storage call.
 func (w *lockWorld) execLockCall(line string) (res string, call *lockCall, ok bool) {
-	f := strings.Fields(line)
-	a, good := atoiList(f[1:])
-	if !good {
+	call, fn, ok := w.prepareLockCall(line)
+	if !ok {
 		return "", nil, false
 	}
-	call = &lockCall{kind: f[0]}
-	run := func(fn func() error) string {
-		out, _, _ := Catch(func() string { return errClass(fn()) })
-		return out
+	return runLockCall(fn), call, true
+}
+
+// prepareLockCall parses a call line and builds the real arguments (all bookkeeping of the
+// world happens here, sequentially); the returned closure only calls the store.
+func (w *lockWorld) prepareLockCall(line string) (call *lockCall, fn func() error, ok bool) {
+	f := strings.Fields(line)
+	if len(f) == 0 {
+		return nil, nil, false
 	}
+	a, good := atoiList(f[1:])
+	if !good {
+		return nil, nil, false
+	}
+	call = &lockCall{kind: f[0], line: line}
 	switch f[0] {
 	case "lockutxos":
 		if len(a) < 3 || a[1] > 1 || len(a) != 3+2*a[2] {
-			return "", nil, false
+			return nil, nil, false
 		}
 		call.tx, call.fork = a[0], a[1] == 1
 		var ins []*common.Input
@@ -548,27 +574,27 @@ func (w *lockWorld) execLockCall(line string) (res string, call *lockCall, ok bo
 			call.slots = append(call.slots, fmt.Sprintf("U%d.%d", h, idx))
 		}
 		txh := w.txHash(call.tx)
-		return run(func() error { return w.store.LockUTXOs(ins, txh, call.fork) }), call, true
+		return call, func() error { return w.store.LockUTXOs(ins, txh, call.fork) }, true
 	case "lockdep":
 		if len(a) != 3 || a[2] > 1 || a[0] < 1 || a[0] > lockDepCount {
-			return "", nil, false
+			return nil, nil, false
 		}
 		call.tx, call.fork = a[1], a[2] == 1
 		call.slots = []string{fmt.Sprintf("D%d", a[0])}
 		d, txh := w.deposit(a[0]), w.txHash(call.tx)
-		return run(func() error { return w.store.LockDepositInput(d, txh, call.fork) }), call, true
+		return call, func() error { return w.store.LockDepositInput(d, txh, call.fork) }, true
 	case "lockmint":
 		if len(a) != 4 || a[3] > 1 {
-			return "", nil, false
+			return nil, nil, false
 		}
 		call.tx, call.fork, call.amt = a[2], a[3] == 1, a[1]
 		call.slots = []string{fmt.Sprintf("M%d", a[0])}
 		m := &common.MintData{Group: "UNIVERSAL", Batch: w.batch(a[0]), Amount: common.NewInteger(uint64(a[1]))}
 		txh := w.txHash(call.tx)
-		return run(func() error { return w.store.LockMintInput(m, txh, call.fork) }), call, true
+		return call, func() error { return w.store.LockMintInput(m, txh, call.fork) }, true
 	case "lockghost":
 		if len(a) < 3 || a[1] > 1 || len(a) != 3+a[2] {
-			return "", nil, false
+			return nil, nil, false
 		}
 		call.tx, call.fork, call.keys = a[0], a[1] == 1, a[3:]
 		var keys []*crypto.Key
@@ -577,17 +603,17 @@ func (w *lockWorld) execLockCall(line string) (res string, call *lockCall, ok bo
 			keys = append(keys, &key)
 		}
 		txh := w.txHash(call.tx)
-		return run(func() error { return w.store.LockGhostKeys(keys, txh, call.fork) }), call, true
+		return call, func() error { return w.store.LockGhostKeys(keys, txh, call.fork) }, true
 	case "writetx":
 		if len(a) != 1 || w.txs[a[0]] == nil {
-			return "", nil, false
+			return nil, nil, false
 		}
 		call.ids = a
 		ver := w.txs[a[0]]
-		return run(func() error { return w.store.WriteTransaction(ver) }), call, true
+		return call, func() error { return w.store.WriteTransaction(ver) }, true
 	case "snapshot":
 		if len(a) < 2 || len(a) != 2+a[1] || a[0] < 1 || a[0] > 3 {
-			return "", nil, false
+			return nil, nil, false
 		}
 		call.node = a[0]
 		// the snapshot encoder sorts the transaction hashes and refuses duplicates: the
@@ -596,7 +622,7 @@ func (w *lockWorld) execLockCall(line string) (res string, call *lockCall, ok bo
 		seenID := map[int]bool{}
 		for _, id := range a[2:] {
 			if w.txs[id] == nil || seenID[id] {
-				return "", nil, false
+				return nil, nil, false
 			}
 			seenID[id] = true
 			call.ids = append(call.ids, id)
@@ -609,7 +635,7 @@ func (w *lockWorld) execLockCall(line string) (res string, call *lockCall, ok bo
 			hashes = append(hashes, w.txs[id].PayloadHash())
 		}
 		if len(hashes) == 0 {
-			return "", nil, false
+			return nil, nil, false
 		}
 		lockTopo++
 		snap := &common.SnapshotWithTopologicalOrder{
@@ -618,9 +644,9 @@ func (w *lockWorld) execLockCall(line string) (res string, call *lockCall, ok bo
 			TopologicalOrder: lockTopo,
 		}
 		snap.Hash = snap.PayloadHash()
-		return run(func() error { return w.store.WriteSnapshot(snap, nil) }), call, true
+		return call, func() error { return w.store.WriteSnapshot(snap, nil) }, true
 	}
-	return "", nil, false
+	return nil, nil, false
 }
 
 // lockProperty checks C03/C04 on the real before/after dumps, without the model.
@@ -805,6 +831,9 @@ func execLocks(st *State, line string) Result {
 		w.defTx(id, spec)
 		return Result{Out: "ok"}
 	}
+	if f[0] == "race" {
+		return w.execRace(line)
+	}
 	pre := w.last
 	res, call, ok := w.execLockCall(line)
 	if !ok {
@@ -831,6 +860,197 @@ func execLocks(st *State, line string) Result {
 	}
 	return Result{Out: res + "|" + joinDump(post), LeanIn: leanIn, PropKey: key, PropDesc: desc, Tags: tags,
 		Nontrivial: conflict || res != "ok"}
+}
+
+// ---------------------------------------------------------------- concurrent calls
+
+// execRace: `race n ; call ; call …` — the n calls are issued by n goroutines released together
+// (plus up to 9 goroutines doing reads) against the one store. The observed result classes and
+// the final dump go to the Lean driver (LeanIn), which searches a sequential order of the atomic
+// model calls that explains them. Property mode checks the per-slot statements directly.
+func (w *lockWorld) execRace(line string) Result {
+	segs := strings.Split(line, " ; ")
+	head := strings.Fields(segs[0])
+	if len(head) != 2 || head[0] != "race" {
+		return Result{Out: "bad-op"}
+	}
+	n, err := strconv.Atoi(head[1])
+	if err != nil || n != len(segs)-1 || n < 1 || n > 8 {
+		return Result{Out: "bad-op"}
+	}
+	var calls []*lockCall
+	var fns []func() error
+	for _, sg := range segs[1:] {
+		c, fn, ok := w.prepareLockCall(sg)
+		if !ok {
+			return Result{Out: "bad-op"}
+		}
+		calls = append(calls, c)
+		fns = append(fns, fn)
+	}
+	pre := w.last
+	results := make([]string, n)
+	start := make(chan struct{})
+	var wg sync.WaitGroup
+	for i := range fns {
+		wg.Add(1)
+		go func(i int) {
+			defer wg.Done()
+			<-start
+			results[i] = runLockCall(fns[i])
+		}(i)
+	}
+	// readers: contention on the RWMutex and on Badger read transactions
+	readers := int(w.salt+n) % 10
+	var probe []crypto.Hash
+	for h := range w.hashToID {
+		probe = append(probe, h)
+	}
+	for r := 0; r < readers; r++ {
+		wg.Add(1)
+		go func(r int) {
+			defer wg.Done()
+			<-start
+			for j := 0; j < 20; j++ {
+				h := probe[(r+j)%len(probe)]
+				Catch(func() string {
+					_, _ = w.store.ReadUTXOLock(h, uint(j%3))
+					_, _, _ = w.store.ReadTransaction(h)
+					_, _ = w.store.ReadDepositLock(w.deposit(1 + j%lockDepCount))
+					return ""
+				})
+			}
+		}(r)
+	}
+	close(start)
+	wg.Wait()
+	post, badPayload := w.dump()
+	w.last = post
+
+	anyFork := false
+	var obs []string
+	for i, c := range calls {
+		anyFork = anyFork || c.fork
+		ln := c.line
+		if c.kind == "snapshot" {
+			ln = "snapshot " + fmtInts(append([]int{c.node, len(c.ids)}, c.ids...)...)
+		}
+		obs = append(obs, ln+" => "+results[i])
+	}
+	leanIn := fmt.Sprintf("race %d ; %s ; final %s", n, strings.Join(obs, " ; "), joinDump(post))
+	key, desc, _, _ := w.lockProperty(&lockCall{kind: "race", fork: anyFork}, "ok", pre, post, badPayload)
+	fail := func(k, d string) {
+		if key == "" {
+			key, desc = k, d
+		}
+	}
+	pm, qm := dumpMap(pre), dumpMap(post)
+	holder := func(m map[string]string, slot string) string {
+		v, ok := m[slot]
+		if !ok {
+			return ""
+		}
+		if slot[0] == 'M' {
+			v = v[:strings.IndexByte(v, '.')]
+		}
+		if slot[0] == 'U' && v == "0" {
+			return ""
+		}
+		return v
+	}
+	type slotInfo struct {
+		winners   map[int]bool
+		forked    bool
+		simple    bool // every request is a single-slot non-fork lock by a non-zero transaction
+		requests  int
+	}
+	slots := map[string]*slotInfo{}
+	conflict := false
+	for i, c := range calls {
+		for _, sl := range c.slots {
+			si := slots[sl]
+			if si == nil {
+				si = &slotInfo{winners: map[int]bool{}, simple: true}
+				slots[sl] = si
+			}
+			si.requests++
+			if c.fork {
+				si.forked = true
+			}
+			if c.fork || len(c.slots) != 1 || c.tx == 0 {
+				si.simple = false
+			}
+			if results[i] == "ok" {
+				si.winners[c.tx] = true
+			}
+		}
+	}
+	for sl, si := range slots {
+		if _, exists := pm[sl]; sl[0] == 'U' && !exists {
+			continue
+		}
+		if si.requests > 1 {
+			conflict = true
+		}
+		h0 := holder(pm, sl)
+		if !si.forked {
+			if h0 == "" && len(si.winners) > 1 {
+				fail("C03:race-two-winners", fmt.Sprintf("%d different transactions reserved the free slot %s by non-fork calls", len(si.winners), sl))
+			}
+			if h0 != "" {
+				for t := range si.winners {
+					if strconv.Itoa(t) != h0 {
+						fail("C03:race-nonfork-admitted", fmt.Sprintf("non-fork request by %d succeeded on %s held by %s", t, sl, h0))
+					}
+				}
+			}
+			if h0 == "" && si.simple && len(si.winners) != 1 && sl[0] != 'M' {
+				fail("C03:race-no-winner", fmt.Sprintf("%d conflicting single-slot non-fork requests on the free slot %s: %d winners", si.requests, sl, len(si.winners)))
+			}
+		}
+		if h1 := holder(qm, sl); h1 != h0 {
+			ok := false
+			for t := range si.winners {
+				if strconv.Itoa(t) == h1 || (t == 0 && h1 == "") {
+					ok = true
+				}
+			}
+			if !ok {
+				fail("C03:race-holder-unexplained", fmt.Sprintf("%s is held by %q after the race, which no successful call requested", sl, h1))
+			}
+		}
+	}
+	// ghost keys: a free key is won by at most one non-exception transaction
+	gw := map[int]map[int]bool{}
+	for i, c := range calls {
+		if c.kind != "lockghost" || results[i] != "ok" || (c.fork && c.tx >= 101 && c.tx < 101+len(ghostExceptionHex)) {
+			continue
+		}
+		for _, k := range c.keys {
+			if gw[k] == nil {
+				gw[k] = map[int]bool{}
+			}
+			gw[k][c.tx] = true
+		}
+	}
+	for k, ws := range gw {
+		if len(ws) > 1 {
+			fail("C04:race-key-two-owners", fmt.Sprintf("key %d accepted for %d different transactions in one race", k, len(ws)))
+		}
+		if v, ok := qm["G"+strconv.Itoa(k)]; ok {
+			for t := range ws {
+				if strconv.Itoa(t) != v {
+					fail("C04:race-key-not-bound", fmt.Sprintf("key %d accepted for %d but bound to %s", k, t, v))
+				}
+			}
+		}
+	}
+	tag := "race/free"
+	if conflict {
+		tag = "race/conflict"
+	}
+	return Result{Out: "ok|" + joinDump(post), LeanIn: leanIn, PropKey: key, PropDesc: desc,
+		Tags: []string{tag, fmt.Sprintf("race/calls=%d", n)}, Nontrivial: conflict}
 }
 
 // ---------------------------------------------------------------- generator
@@ -1058,5 +1278,114 @@ func init() {
 				"lockmint 5 1 4 0", "lockmint 5 2 4 0", "lockmint 5 2 4 1", "lockmint 5 2 5 0", "writetx 4", "lockmint 5 2 5 1", "writetx 5", "fulldump",
 			},
 		},
+	})
+}
+
+// ---------------------------------------------------------------- concurrent generator
+
+func genLockrace(r *Rand, i int, tier string) []string {
+	lines := []string{"reset", "exceptions"}
+	keyPool := r.Range(3, 6)
+	outs := func(n int) [][]int {
+		var o [][]int
+		for j := 0; j < n; j++ {
+			var ks []int
+			for c := r.Intn(3); c > 0; c-- {
+				ks = append(ks, 1+r.Intn(keyPool))
+			}
+			o = append(o, ks)
+		}
+		return o
+	}
+	fund := &genTx{id: 1, ins: [][3]int{{0, 0, 0}}, outs: outs(r.Range(2, 3))}
+	lines = append(lines, fund.line(), "writetx 1", "snapshot 1 1 1")
+	var slots [][2]int
+	for j := range fund.outs {
+		slots = append(slots, [2]int{1, j})
+	}
+	dep := 1 + r.Intn(lockDepCount)
+	batch := r.Range(1, 3)
+	var txs []*genTx
+	nSpend := r.Range(3, 7)
+	for id := 2; id < 2+nSpend; id++ {
+		t := &genTx{id: id, outs: outs(r.Range(1, 2))}
+		switch c := r.Intn(10); {
+		case c < 6:
+			n := r.Range(1, 2)
+			for j := 0; j < n; j++ {
+				s := Pick(r, slots)
+				t.ins = append(t.ins, [3]int{3, s[0], s[1]})
+			}
+		case c < 8:
+			t.ins = [][3]int{{1, dep, 0}}
+		default:
+			t.ins = [][3]int{{2, batch, r.Range(1, 2)}}
+		}
+		txs = append(txs, t)
+		lines = append(lines, t.line())
+	}
+	call := func() string {
+		t := Pick(r, txs)
+		switch c := r.Intn(20); {
+		case c < 9:
+			return t.lockInputsLine(r.Chance(1, 4))
+		case c < 13:
+			return t.ghostLine(r.Chance(1, 4))
+		case c < 15:
+			return "writetx " + fmtInts(t.id)
+		case c < 17:
+			return "snapshot " + fmtInts(r.Range(1, 2), 1, t.id)
+		case c < 18:
+			n := r.Range(1, 3)
+			a := []int{Pick(r, []int{0, 101, 102, 90, t.id}), b2i(r.Bool()), n}
+			for j := 0; j < n; j++ {
+				a = append(a, 1+r.Intn(keyPool))
+			}
+			return "lockghost " + fmtInts(a...)
+		default:
+			s := Pick(r, slots)
+			return "lockutxos " + fmtInts(Pick(r, []int{90, 91, t.id}), b2i(r.Chance(1, 3)), 1, s[0], s[1])
+		}
+	}
+	rounds := r.Range(1, 4)
+	for k := 0; k < rounds; k++ {
+		// a few sequential admissions so that bodies and pending holders exist
+		for j := r.Intn(3); j > 0; j-- {
+			t := Pick(r, txs)
+			lines = append(lines, t.ghostLine(false), t.lockInputsLine(false), "writetx "+fmtInts(t.id))
+		}
+		n := r.Range(2, 7)
+		if r.Chance(1, 3) {
+			// the pure double-spend race: everybody wants the same free slot, non-fork
+			s := Pick(r, slots)
+			var cs []string
+			for j := 0; j < n; j++ {
+				cs = append(cs, "lockutxos "+fmtInts(20+j, 0, 1, s[0], s[1]))
+			}
+			lines = append(lines, fmt.Sprintf("race %d ; %s", n, strings.Join(cs, " ; ")))
+			continue
+		}
+		var cs []string
+		for j := 0; j < n; j++ {
+			cs = append(cs, call())
+		}
+		lines = append(lines, fmt.Sprintf("race %d ; %s", n, strings.Join(cs, " ; ")))
+	}
+	return append(lines, "fulldump")
+}
+
+func init() {
+	Register(&Subsystem{
+		Name: "lockrace",
+		Rule: "a case = fresh namespace in a real BadgerStore, one finalized funding transaction, 3-7 spenders with colliding inputs/keys, 1-4 races of 2-7 calls issued by concurrent goroutines (plus 0-9 reader goroutines); the Lean driver searches a sequential order of the atomic model calls explaining results and final dump; non-trivial = two calls of a race requested the same slot",
+		Gen:  genLockrace,
+		Exec: execLocks,
+		Corpus: [][]string{{
+			"reset", "exceptions", "deftx 1 1 0 0 0 2 1 1 1 2", "writetx 1", "snapshot 1 1 1",
+			"race 4 ; lockutxos 20 0 1 1 0 ; lockutxos 21 0 1 1 0 ; lockutxos 22 0 1 1 0 ; lockutxos 23 0 1 1 0",
+			"race 3 ; lockghost 20 0 1 5 ; lockghost 21 0 1 5 ; lockghost 101 1 1 5",
+			"race 3 ; lockdep 1 20 0 ; lockdep 1 21 0 ; lockdep 1 22 1",
+			"fulldump",
+		}},
 	})
 }
